@@ -200,6 +200,28 @@ def ppid_map_facts(tree):
     return rfind, off, idx
 
 
+def ppid_map_skips_denied(tree):
+    """True iff the `try:` around the open/read of /proc/<pid>/stat in ppid_map() has a handler that
+    covers PermissionError (EACCES/EPERM) and whose body neither raises nor returns."""
+    fn = extract.find_def(tree, "ppid_map")
+    tries = [n for n in ast.walk(fn) if isinstance(n, ast.Try)
+             and any(isinstance(c, ast.Call) and extract.dotted(c.func) in ("open_binary", "bcat", "open")
+                     for b in n.body for c in ast.walk(b))]
+    if len(tries) != 1:
+        raise NotRecognised("ppid_map(): expected one try around the stat read, found %d" % len(tries))
+    for h in tries[0].handlers:
+        if h.type is None:
+            names = {"BaseException"}
+        elif isinstance(h.type, ast.Tuple):
+            names = {extract.dotted(e) for e in h.type.elts}
+        else:
+            names = {extract.dotted(h.type)}
+        if names & {"PermissionError", "OSError", "EnvironmentError", "IOError", "Exception", "BaseException"}:
+            quiet = not any(isinstance(x, (ast.Raise, ast.Return)) for b in h.body for x in ast.walk(b))
+            return quiet
+    return False
+
+
 def stat_file_facts(tree):
     """(uses rfind, offset, index of 'ppid', index of 'create_time') in Process._parse_stat_file()."""
     fn = extract.find_def(tree, "_parse_stat_file", cls="Process")
@@ -285,6 +307,8 @@ def facts(snap, F):
     F.try_add("ppidMapRfind", "Bool", lambda: extract.lean_bool(pmf()[0]), "ppid_map(): `data.rfind(b')')` (true) or find (false)")
     F.try_add("ppidMapOffset", "Nat", lambda: extract.lean_nat(pmf()[1]), "ppid_map(): `data[rpar + N:]`")
     F.try_add("ppidMapIdx", "Nat", lambda: extract.lean_nat(pmf()[2]), "ppid_map(): `int(dset[N])`")
+    F.try_add("ppidMapSkipsDenied", "Bool", lambda: extract.lean_bool(ppid_map_skips_denied(linux)),
+              "ppid_map(): an unreadable /proc/<pid>/stat (PermissionError) is skipped, not raised")
     F.try_add("statRfind", "Bool", lambda: extract.lean_bool(sff()[0]), "_parse_stat_file(): rfind (true) or find (false)")
     F.try_add("statOffset", "Nat", lambda: extract.lean_nat(sff()[1]), "_parse_stat_file(): `data[rpar + N:]`")
     F.try_add("statPpidIdx", "Nat", lambda: extract.lean_nat(sff()[2]), "_parse_stat_file(): ret['ppid'] = fields[N]")
